@@ -282,7 +282,7 @@ var ValidProfiles = []Profile{
 	}, Optional: []string{"VF", "VG", "VH", "VI"}},
 	{Name: "fragments", Template: `query Q { §0 } §1 §2`, Holes: [][]string{
 		{`...F`, `id`, `...G`, `...Nope`, `node(id: 1) { ...F }`, `pet { ...F }`, `search { ...F }`, `named { ... on Person { id } }`, `pet { ... on Person { id } }`, `node(id: 1) { ... on Kind { x } }`, `...A`, `pet { ...F ...F }`, `... on Query { ...F }`, `... { ...F }`, `... on Pet { id }`, `person { ...F }`, `search { ...H }`, `...F ...G`, `named { ...I }`, `pet { ...I }`, `node(id: 1) { ...J }`},
-		{`fragment F on Query { id }`, `fragment F on Pet { id }`, `fragment F on Nope { id }`, `fragment F on Kind { x }`, `fragment F on Query { ...F }`, `fragment F on Query { id } fragment F on Query { id }`, ``, `fragment F on Filter { name }`, `fragment F on Query { pet { ...F } }`, `fragment F on Node { id }`, `fragment F on Result { __typename }`, `fragment F on Query { id ...G }`, `fragment F on Query { id ...Nope }`, `fragment F on Query { pet { id ...Nope2 } }`},
+		{`fragment F on Query { id }`, `fragment F on Pet { id }`, `fragment F on Nope { id }`, `fragment F on Kind { x }`, `fragment F on Query { ...F }`, `fragment F on Query { id } fragment F on Query { id }`, ``, `fragment F on Filter { name }`, `fragment F on Query { pet { ...F } }`, `fragment F on Node { id }`, `fragment F on Result { __typename }`, `fragment F on Query { id ...G }`, `fragment F on Query { id ...Nope }`, `fragment F on name { id }`, `fragment F on Pat { id }`, `fragment F on Query { pet { id ...Nope2 } }`},
 		{``, `fragment G on Query { ...F }`, `fragment A on Query { ...B } fragment B on Query { ...A }`, `fragment G on Query { id }`, `fragment A on Query { ...B } fragment B on Query { ...C } fragment C on Query { pet { id } ...A }`, `fragment H on Thing { __typename }`, `fragment G on Query { ...G }`, `fragment I on Person { id }`, `fragment J on Robot { id }`, `fragment I on Named { ... on Pet { id } }`, `fragment G on Query { b: id ...Missing }`, `fragment G on Query { pet { ...Missing } }`},
 	}},
 	{Name: "directives", Template: `query Q($c: Boolean = true §3) §0 { id §1 ...DF §2 ... §1 { pet { id } } ... on Query §2 { x: id } } fragment DF on Query §0 { y: id }`, Holes: [][]string{
